@@ -160,6 +160,17 @@ func overlappingChecks(g *gen.G, sc *gen.Scenario, n int) []gen.Request {
 
 // ---------------------------------------------------------------- C08
 
+// plainVaries re-issues a request without caches up to four more times (other labels, hence other
+// schedules) and reports whether the uncached engine itself gives an answer different from first.
+func plainVaries(again func(k int) anyAns, first anyAns) bool {
+	for k := 0; k < 4; k++ {
+		if b := again(k); b.err != first.err || b.s != first.s {
+			return true
+		}
+	}
+	return false
+}
+
 func c08Gen(runSeed uint64, tier string) *gen.Scenario {
 	sc := genEngineScenario(runSeed, tier, 0)
 	g := gen.New(runSeed ^ 0xc08)
@@ -296,6 +307,18 @@ func c08Exec(t *testing.T, sc *gen.Scenario, trace bool) *harness.Outcome {
 						e.Violate("cache_changes_answer", fmt.Sprintf("mode=%d kind=%s cached=error", mode, rq2.Kind), "request %d copy %d (%+v): failed (%s) with the query cache on, answered %s with caching disabled", i, k, rq2, lastErr, want.s)
 						return
 					}
+					continue
+				}
+				if a.s != want.s && uneval && plainVaries(func(k int) anyAns {
+					ctx, cancel := reqCtx(i, fmt.Sprintf(".plain%d", k+2), 10*time.Second)
+					defer cancel()
+					return plain(ctx, rq2)
+				}, want) {
+					// some stored condition cannot be evaluated for this request, and WITHOUT any cache the
+					// answer already depends on the schedule (which branch answers first, whether the failing
+					// tuple is reached: F9 and F10 live there; the supervaluation oracle of C01/C05 judges such
+					// states): the difference is not the cache's doing
+					simrt.Probe("uncached_answers_vary_with_unevaluable_condition")
 					continue
 				}
 				if a.s != want.s {
@@ -467,6 +490,14 @@ func c09Exec(t *testing.T, sc *gen.Scenario, trace bool) *harness.Outcome {
 					e.Violate("cache_changes_answer", fmt.Sprintf("mode=%d kind=%s cached=error%s", mode, rq2.Kind, tag), "request %d (%+v): failed (%s) with the iterator caches on, answered %s with caching disabled", i, rq2, lastErr, want.s)
 					return
 				}
+				continue
+			}
+			if a.s != want.s && uneval && plainVaries(func(k int) anyAns {
+				ctx, cancel := reqCtx(i, fmt.Sprintf(".plain%d", k+2), 10*time.Second)
+				defer cancel()
+				return plain(ctx, rq2)
+			}, want) {
+				simrt.Probe("uncached_answers_vary_with_unevaluable_condition")
 				continue
 			}
 			if a.s != want.s {
